@@ -521,6 +521,8 @@ func (t *wScreen) Resume() error {
 		return errors.New("already engaged")
 	}
 	t.running = true
+	// Suspend cleared the page: the next Show has to paint every cell again
+	t.cells.Invalidate()
 
 	t.enableMouse(t.mouseFlags)
 	t.enablePasting(t.pasteEnabled)
